@@ -257,7 +257,7 @@ func keepNone(int, int) bool { return false }
 // pending pieces and nDir pending directory operations. rng picks the random
 // subsets; budget bounds how many are produced (<=0: no bound). exhaustiveMax is
 // the largest piece count for which all 2^n subsets are enumerated.
-func StandardVariants(nPieces, nDir int, rng *rand.Rand, budget int, exhaustiveMax int) []Variant {
+func StandardVariants(nPieces, nDir int, rng *rand.Rand, budget int, exhaustiveMax int, salt int64) []Variant {
 	var vs []Variant
 	add := func(v Variant) { vs = append(vs, v) }
 	add(Variant{Kill: true, Name: "kill"})
@@ -315,7 +315,7 @@ func StandardVariants(nPieces, nDir int, rng *rand.Rand, budget int, exhaustiveM
 			}
 			pcs = append(pcs, pc{"suffix-half", func(i, n int) bool { return i >= n/2 }})
 			for r := 0; r < 6; r++ {
-				seed := rng.Int63()
+				seed := salt*1000003 + int64(r)
 				prob := []float64{0.5, 0.2, 0.8, 0.5, 0.9, 0.1}[r]
 				pcs = append(pcs, pc{fmt.Sprintf("rand%d", r), func(i, n int) bool {
 					x := rand.New(rand.NewSource(seed + int64(i)*7919)).Float64()
